@@ -136,9 +136,19 @@ static JanetSlot janetc_unquote(JanetFopts opts, int32_t argn, const Janet *argv
     return janetc_cslot(janet_wrap_nil());
 }
 
+static int destructure1(JanetCompiler *c,
+                        Janet left,
+                        JanetSlot right,
+                        int (*leaf)(JanetCompiler *c,
+                                    const uint8_t *sym,
+                                    JanetSlot s,
+                                    JanetTable *attr),
+                        JanetTable *attr);
+
 /* Perform destructuring. Be careful to
  * keep the order registers are freed.
- * Returns if the slot 'right' can be freed. */
+ * Returns if the slot 'right' can be freed.
+ * Nested patterns count against the same recursion guard as nested forms. */
 static int destructure(JanetCompiler *c,
                        Janet left,
                        JanetSlot right,
@@ -147,6 +157,26 @@ static int destructure(JanetCompiler *c,
                                    JanetSlot s,
                                    JanetTable *attr),
                        JanetTable *attr) {
+    int ret;
+    if (c->result.status == JANET_COMPILE_ERROR) return 1;
+    if (c->recursion_guard <= 1) {
+        janetc_cerror(c, "recursed too deeply");
+        return 1;
+    }
+    c->recursion_guard--;
+    ret = destructure1(c, left, right, leaf, attr);
+    c->recursion_guard++;
+    return ret;
+}
+
+static int destructure1(JanetCompiler *c,
+                        Janet left,
+                        JanetSlot right,
+                        int (*leaf)(JanetCompiler *c,
+                                    const uint8_t *sym,
+                                    JanetSlot s,
+                                    JanetTable *attr),
+                        JanetTable *attr) {
     switch (janet_type(left)) {
         default:
             janetc_error(c, janet_formatc("unexpected type in destructuring, got %v", left));
